@@ -29,13 +29,29 @@ def renderRules (rs : List TagParser.Rule) : String := "ok:" ++ "|".intercalate 
 def padL : TagParser.Str := [0x20, 0x09]
 def padR : TagParser.Str := [0x0A, 0x20]
 
+def isSimple (t : TagParser.Str) : Bool :=
+  t.all fun c => !(c == 0x27 || c == 0x22 || c == 0x5C || c == 0x5B || c == 0x5D || c == 0x7B || c == 0x7D)
+
+def splitComma : TagParser.Str → TagParser.Str → List TagParser.Str
+  | [], cur => [cur]
+  | c :: rest, cur => if c == 0x2C then cur :: splitComma rest [] else splitComma rest (cur ++ [c])
+
+def padEq : TagParser.Str → TagParser.Str
+  | [] => []
+  | c :: rest => if c == 0x3D then [0xA0, 0x3D, 0x0A] ++ rest else c :: padEq rest
+
+/-- the harness's `innerPad`: whitespace around every rule and around its first `=` -/
+def innerPad (t : TagParser.Str) : TagParser.Str :=
+  [0x2C].intercalate ((splitComma t []).map fun p => [0x09] ++ padEq p ++ [0x2003])
+
 def tagObs (legacy : Bool) (t : TagParser.Str) : String :=
   match TagParser.parseTag legacy t with
   | .error _ => "panic"
   | .ok rs =>
-    let ws := match TagParser.parseTag legacy (padL ++ t ++ padR) with
+    let same (t' : TagParser.Str) : Bool := match TagParser.parseTag legacy t' with
       | .ok rs' => decide (rs' = rs)
       | .error _ => false
+    let ws := same (padL ++ t ++ padR) && (!isSimple t || same (innerPad t))
     renderRules rs ++ " ws=" ++ b2s ws
 
 def tableSum : String :=
